@@ -6,6 +6,7 @@ import (
 	"fmt"
 	"io"
 	"math/rand"
+	"strings"
 	"testing/iotest"
 
 	gots "github.com/Comcast/gots/v2"
@@ -67,6 +68,7 @@ func (c16) Gen(tier string, seed int64, emit func([]Ev)) {
 		maxLen, nrand = 9, 200000
 	}
 	c16IsSynced(r, emit)
+	c16Boundary(r, tier == "thorough", emit)
 	if tier == "thorough" {
 		c16Structured(r, 3000, emit)
 	} else {
@@ -185,6 +187,52 @@ func c16Structured(r *rand.Rand, n int, emit func([]Ev)) {
 	}
 }
 
+// c16Boundary: a rejected sync byte whose four header bytes straddle the end of a buffer fill, with the true header
+// beginning inside those four bytes - for buffered readers of many sizes (whole packets, whole packets plus one
+// or two, powers of two), at every alignment of the pair against the end of the first (second, third) fill.
+func c16Boundary(r *rand.Rand, thorough bool, emit func([]Ev)) {
+	var sizes []int
+	for n := 1; n <= 8; n++ {
+		sizes = append(sizes, n*188, n*188+1, n*188+2)
+	}
+	sizes = append(sizes, 16, 17, 64, 100, 256, 512, 1000, 1024, 2048, 4096)
+	fills := 1
+	if thorough {
+		fills = 3
+		for k := 0; k < 40; k++ {
+			sizes = append(sizes, 16+r.Intn(3000))
+		}
+	}
+	pairs := [][]byte{
+		{0x47, 0x47, 0x40, 0x00, 0x10},             // false (AFC 00) at 0, true at 1
+		{0x47, 0x00, 0x47, 0x40, 0x00, 0x10},       // false (AFC 00) at 0, true at 2
+		{0x47, 0x00, 0x05, 0x47, 0x01, 0x00, 0x10}, // false (PID 5) at 0, true at 3
+	}
+	for _, sz := range sizes {
+		for f := 1; f <= fills; f++ {
+			for d := -6; d <= 1; d++ {
+				at := f*sz + d
+				if at < 0 {
+					continue
+				}
+				for _, pr := range pairs {
+					st := make([]byte, at, at+len(pr)+200)
+					fill := []byte{0xff, 0x00, 0x46}[r.Intn(3)]
+					for i := range st {
+						st[i] = fill
+					}
+					st = append(st, pr...)
+					// more than one further buffer fill behind the pair, so that a refill replaces the whole buffer
+					for k := 0; k < sz+183+r.Intn(10); k++ {
+						st = append(st, 0x48)
+					}
+					emit([]Ev{{"op": "sync", "stream": B(st), "reader": fmt.Sprintf("bufio:%d", sz)}})
+				}
+			}
+		}
+	}
+}
+
 // c16IsSynced: IsSynced on every AFC value x PIDs around the reserved range x first-byte variants,
 // and on streams shorter than a header.
 func c16IsSynced(r *rand.Rand, emit func([]Ev)) {
@@ -242,6 +290,12 @@ func (c16) Exec(h []Ev) []Ev {
 			b := bufio.NewReaderSize(iotest.OneByteReader(bytes.NewReader(s)), 16)
 			rd, rest = b, b
 		default:
+			var n int
+			if _, err := fmt.Sscanf(GS(e["reader"]), "bufio:%d", &n); err == nil && n > 0 {
+				b := bufio.NewReaderSize(bytes.NewReader(s), n)
+				rd, rest = b, b
+				break
+			}
 			sp := &slicePeeker{b: s}
 			rd, rest = sp, sp
 		}
@@ -299,5 +353,9 @@ func (c16) Class(e Ev) string {
 	if lb > 8 {
 		lb = 9
 	}
-	return fmt.Sprintf("sync/%s/%s/syncbytes%d/len%d", GS(e["reader"]), GS(e["err"]), nsync, lb)
+	rd := GS(e["reader"])
+	if strings.HasPrefix(rd, "bufio:") {
+		rd = "bufio:N"
+	}
+	return fmt.Sprintf("sync/%s/%s/syncbytes%d/len%d", rd, GS(e["err"]), nsync, lb)
 }
